@@ -362,7 +362,20 @@ type anonGroup struct {
 }
 
 func (g *anonGroup) apply(c godi.Collection) error {
-	err := c.AddModules(g.kids...)
+	var err error
+	if c == nil {
+		// no collection to delegate to: the option walks its entries itself, like AddModules does
+		for _, k := range g.kids {
+			if k == nil {
+				continue
+			}
+			if err = k(nil); err != nil {
+				break
+			}
+		}
+	} else {
+		err = c.AddModules(g.kids...)
+	}
 	if err != nil && g.wrap > 0 {
 		return &wrapErr{g.wrap, err}
 	}
